@@ -367,6 +367,38 @@ theorem output_write_enqueues (s : State) (b : List Bool) (bl : List (List Bool)
     semIo .outWrite s = { s with bvec := bl, ivec := hl, output := s.output.push ⟨h, b⟩ } := by
   simp [semIo, hb, hh]
 
+/-- **program order**: any number of plain pushes (OUTPUT.WRITEs) leaves exactly the queued items followed by
+the first written messages that still fitted, in the order written; later ones are ignored -/
+theorem pushes_in_order {α : Type} (b : Buf α) (ms : List α) (hb : b.items.length ≤ b.cap) :
+    (ms.foldl Buf.push b).items = b.items ++ ms.take (b.cap - b.items.length) ∧ (ms.foldl Buf.push b).cap = b.cap := by
+  induction ms generalizing b with
+  | nil => simp
+  | cons m ms ih =>
+    simp only [List.foldl_cons]
+    by_cases hfull : b.items.length < b.cap
+    · have hp : b.push m = { b with items := b.items ++ [m] } := by simp [Buf.push, hfull]
+      have := ih (b.push m) (by rw [hp]; simp; omega)
+      rw [hp] at this ⊢
+      simp only [List.length_append, List.length_singleton] at this
+      refine ⟨?_, this.2⟩
+      rw [this.1]
+      have e : b.cap - b.items.length = (b.cap - (b.items.length + 1)) + 1 := by omega
+      rw [e, List.take_succ_cons]
+      simp
+    · have hp : b.push m = b := by simp [Buf.push, hfull]
+      have := ih b hb
+      rw [hp]
+      refine ⟨?_, this.2⟩
+      rw [this.1]
+      have e : b.cap - b.items.length = 0 := by omega
+      simp [e]
+
+/-- from an empty queue: the first `cap` messages written, in the order written -/
+theorem writes_from_empty {α : Type} (cap : Nat) (ms : List α) :
+    (ms.foldl Buf.push ⟨cap, []⟩).items = ms.take cap := by
+  have := (pushes_in_order (⟨cap, []⟩ : Buf α) ms (by simp)).1
+  simpa using this
+
 /-! non-vacuity: a wrapped-around buffer satisfies the invariant -/
 example : Inv ({ cap := 3, cont := [7, 8, 9], start := 1, fin := 2, len := 2, kind := .queue } : Ring Nat) := by
   refine ⟨by decide, rfl, by decide, by decide, by decide⟩
